@@ -26,7 +26,7 @@ Definition two53 : Z := 2 ^ 53.
 Definition two49 : Z := 2 ^ 49.
 Definition pow10n (fp : str) : Z := 10 ^ Z.of_nat (length fp).
 (* side conditions of the time theorems, as a boolean *)
-Definition texpr_okb (fr tr : Z) (e : texpr) : bool :=
+Definition texpr_okb0 (fr tr : Z) (e : texpr) : bool :=
   match e with
   | TClock hs ms ss fs =>
     field_ok hs && field_ok ms && field_ok ss && digitsb fs && Nat.leb (length fs) 3 && (dval fs <=? max_int64)
@@ -55,6 +55,9 @@ Definition texpr_time (fr tr : Z) (e : texpr) : Z :=
     | _ => offset_term ip fp m
     end
   end.
+(* ... and the result fits Go's int64 nanoseconds (time.Duration arithmetic wraps silently beyond it; every partial
+   sum of the parser is non-negative and at most the result) *)
+Definition texpr_okb (fr tr : Z) (e : texpr) : bool := texpr_okb0 fr tr e && (texpr_time fr tr e <=? max_int64).
 (* the instant the expression means, as a fraction (numerator, denominator) of nanoseconds *)
 Definition texpr_exact (fr tr : Z) (e : texpr) : Z * Z :=
   match e with
